@@ -13,6 +13,8 @@ import EaselModel.Shuffle.LemmasUniform
 import EaselModel.Shuffle.LemmasUniform2
 import EaselModel.Shuffle.LemmasTermination
 import EaselModel.Shuffle.LemmasProgress
+import EaselModel.Shuffle.LemmasIndex
+import EaselModel.Shuffle.LemmasStorage
 import EaselModel.Shuffle.LawfulRat
 /-! # C18 — property theorems (statements + glue only; lemmas live in Shuffle/*.lean)
 
@@ -79,6 +81,49 @@ theorem reverse_inplace_eq {α : Type} [Inhabited α] (src dst : Array α) (base
   apply Array.toList_inj.mp
   rw [reverse_toList true src src base L hsrc hsrc (by simp), reverse_toList false src dst base L hsrc hdst (by simp)]
 
+/-! ## in place = separate output storage
+`Out.inPlace`: `shuffled == s`; `Out.separate d`: other storage of the input's size with ANY previous content `d`. The
+routines copy the input into separate storage first and work there (`Out.load`); the result — output and generator state —
+does not depend on `d` and equals the in-place result. (`reverse_inplace_eq`, `vShuffle_inplace_eq` are the alias-aware
+cases where input cells are read after output cells were written; DP shuffle and Markov resamplers read the whole input
+before they write; bootstrap cannot be called in place.) -/
+theorem shuffle_inplace_eq_separate {α : Type} (s d : Array α) (h : d.size = s.size) (r : Rng) :
+    cShuffleOut s (.separate d) r = cShuffleOut s .inPlace r ∧ cShuffleOut s .inPlace r = cShuffle s r :=
+  cShuffleOut_eq s d h r
+
+theorem xShuffle_inplace_eq_separate (dsq d : Bytes) (L : Nat) (h : d.size = dsq.size) (r : Rng) :
+    xShuffleOut dsq L (.separate d) r = xShuffleOut dsq L .inPlace r ∧ xShuffleOut dsq L .inPlace r = xShuffle dsq L r :=
+  xShuffleOut_eq dsq d L h r
+
+/-- k-mer shuffles (the seeded change C18-a broke exactly this for fewer than two words) -/
+theorem shuffleKmers_inplace_eq_separate {α : Type} (base : Nat) (a d : Array α) (L K : Nat) (h : d.size = a.size) (r : Rng) :
+    shuffleKmersOut base a L K (.separate d) r = shuffleKmersOut base a L K .inPlace r ∧
+      shuffleKmersOut base a L K .inPlace r = shuffleKmers base a L K r :=
+  shuffleKmersOut_eq base a d L K h r
+
+theorem shuffleWindows_inplace_eq_separate {α : Type} (s d : Array α) (w : Nat) (h : d.size = s.size) (r : Rng) :
+    cShuffleWindowsOut s w (.separate d) r = cShuffleWindowsOut s w .inPlace r ∧
+      cShuffleWindowsOut s w .inPlace r = cShuffleWindows s w r :=
+  cShuffleWindowsOut_eq s d w h r
+
+theorem xShuffleWindows_inplace_eq_separate (dsq d : Bytes) (L w : Nat) (h : d.size = dsq.size) (r : Rng) :
+    xShuffleWindowsOut dsq L w (.separate d) r = xShuffleWindowsOut dsq L w .inPlace r ∧
+      xShuffleWindowsOut dsq L w .inPlace r = xShuffleWindows dsq L w r :=
+  xShuffleWindowsOut_eq dsq d L w h r
+
+/-- `esl_msashuffle_Shuffle(r, msa, shuf)` with `shuf` a different alignment of the same shape = `shuf == msa` -/
+theorem msaShuffle_inplace_eq_separate {α : Type} (base : Nat) (rows shuf : Array (Array α)) (alen : Nat)
+    (hsz : shuf.size = rows.size) (hrow : ∀ i (h : i < rows.size), (shuf[i]'(hsz ▸ h)).size = rows[i].size) (r : Rng) :
+    msaShuffleOut base rows alen (some shuf) r = msaShuffleOut base rows alen none r :=
+  msaShuffleOut_eq base rows shuf alen hsz hrow r
+
+/-- `esl_msashuffle_{C,X}QRNA(r, abc, x, y, xs, ys)`: `xs == x` or not, `ys == y` or not, independently — all four calls compute
+    the result of the fully in-place call (to which `qrna_keeps_classes` / `qrna_class_perm` apply) -/
+theorem qrna_inplace_eq_separate (isGap : UInt8 → Bool) (x y : Bytes) (ox oy : Out UInt8) (base L : Nat) (r : Rng)
+    (hx : ∀ d, ox = .separate d → d.size = x.size) (hy : ∀ d, oy = .separate d → d.size = y.size) :
+    qrnaOut isGap x y ox oy base L r = qrna isGap x y base L r :=
+  qrnaOut_eq isGap x y ox oy base L r hx hy
+
 /-! ## alignment shufflers -/
 /-- `esl_msashuffle_Shuffle` (`base = 0` text, `base = 1` digital): the output columns are the input columns, each exactly
     once (a permutation of the list of columns, entries of a column kept together); other columns (the digital
@@ -95,6 +140,21 @@ theorem permuteSeqOrder_spec {α : Type} (nseq : Nat) (arrays : Array (Array α)
     (hlen : ∀ k (hk : k < arrays.size), nseq ≤ arrays[k].size) (r : Rng) :
     RowsInv 0 nseq arrays (permuteSeqOrder arrays nseq r).1 :=
   fy_multiSwap_spec 0 nseq arrays (by simpa using hlen) r
+
+/-- the name index that `esl_msashuffle_PermuteSequenceOrder` rebuilds at the end (`esl_keyhash_Reuse` + `Store` of every
+    `sqname[i]` in the new order, status ignored): for pairwise different names — `names` is the `sqname` array before the call,
+    the array after it is the plain shuffle of it on the drawn rolls (`msaShuffle_via_rolls`) — the names stay pairwise
+    different and looking up the name of NEW row `i` answers `i`, for every generator state. (With a duplicated name the
+    second `Store` is refused and every later name gets a number one too small; the model and the differential run follow
+    the code there, the theorem does not apply.) -/
+theorem permuteSeqOrder_index_spec {κ : Type} [BEq κ] [LawfulBEq κ] (names : Array κ) (nseq : Nat)
+    (hn : names.toList.Nodup) (r : Rng) :
+    let names' := (fyRolls aswap 0 nseq names (fyDraw nseq r)).toList
+    names'.Nodup ∧ ∀ (i : Nat) (hi : i < names'.length), indexLookup (rebuildIndex names') names'[i] = some i := by
+  intro names'
+  have hp : names'.Perm names.toList := (fyRolls_perm 0 nseq names (fyDraw nseq r)).toList
+  have hnd : names'.Nodup := hp.nodup_iff.2 hn
+  exact ⟨hnd, fun i hi => indexLookup_rebuild names' hnd i hi⟩
 
 /-- `esl_msashuffle_Bootstrap`: every output column is one of the input columns -/
 theorem bootstrap_only_input_columns (base alen : Nat) (msa boot : Array Bytes) (hsz : boot.size = msa.size)
@@ -429,6 +489,24 @@ theorem roll_reaches_every_value (n : Nat) (hn : 0 < n) (hn' : n < 2^32) (ws : L
     v * ((2^32-1)/n) < 2^32 ∧ rollOn n (ws ++ [v * ((2^32-1)/n)]) = some (v, []) :=
   ⟨mul_factor_lt n v hv, rollOn_reach n hn hn' ws h v hv []⟩
 
+/-- the word-stream existential realised on generator states: from EVERY state of the Mersenne Twister (a table of 624 words)
+    the state that differs from it only in the ONE table word tempered next (`Rng.pokeRaw`, the harness's `poke` hook; set to
+    `0`, and `temper(0) = 0`) makes `esl_rnd_Roll(r, n)` return at its first draw, for every `n > 0` -/
+theorem roll_returns_from_poked_state (r : Rng) (hk : r.kind = .mersenne) (hs : r.st.mt.size = 624) (n fuel : Nat) (hn : 0 < n) :
+    ∃ r', (r.pokeRaw 0).roll n (fuel+1) = some (0, r') :=
+  roll_returns_after_poke r hk hs n fuel hn
+
+/-- `esl_rand64_Roll` (used by `esl_vec_*Shuffle64`): the model's loop is `rollOn64` on the generator's 64-bit words; a returned
+    value is in range; after any finite run of rejected words every next word below `n·f` — at least half of all words —
+    makes it return -/
+theorem roll64_progress (n : Nat) (hn : 0 < n) (hn' : n < 2^64) :
+    (∀ fuel (r : Rng64), r.roll n fuel = (rollOn64 n (rng64Words r fuel)).map (fun p => (p.1, rng64After r (fuel - p.2.length)))) ∧
+    (∀ ws v rest, rollOn64 n ws = some (v, rest) → v < n) ∧
+    (∀ ws, rollOn64 n ws = none → ∀ w, w < n * ((2^64-1)/n) → ∃ v, rollOn64 n (ws ++ [w]) = some (v, []) ∧ v < n) ∧
+    2^64 ≤ 2 * (n * ((2^64-1)/n)) := by
+  obtain ⟨_, h2, h3⟩ := reject_count_gen (2^64-1) n hn (by omega)
+  exact ⟨Rng64_roll_eq_rollOn64 n, rollOn64_lt n, fun ws h w hw => rollOn64_progress n hn hn' ws h w hw, by omega⟩
+
 /-- **the `while (!is_eulerian)` retry, on raw words**: for every valid non-empty input (each vertex with fewer than `2^32`
     edges) and every edge ordering a pass can start from there is a finite list of 32-bit words on which the pass — reading
     every roll through the rejection loop — consumes the list and selects last edges that the code's own connectivity test
@@ -754,5 +832,14 @@ example : ∃ ws E', (∀ w ∈ ws, w < 2^32) ∧ dpSelectLastOn 0 (List.range 3
         rw [getElem!_neg]; · rfl
         · simpa [dpBuild] using h
       simp [elist, this])
+
+/-- the rebuilt index on distinct names, and what the code does with a duplicated one (`b` gets number 1 although it is row 2) -/
+example : rebuildIndex ["a", "b", "c"] = ["a", "b", "c"] ∧ indexLookup (rebuildIndex ["a", "a", "b"]) "b" = some 1 := by decide
+
+example : (cShuffleOut (#[1, 2, 3] : Array Nat) (.separate #[9, 9, 9]) (Rng.create .fast 1)).1 =
+    (cShuffleOut (#[1, 2, 3] : Array Nat) .inPlace (Rng.create .fast 1)).1 := by decide +kernel
+
+/-- a seeded generator is such a state -/
+example : (Rng.create .mersenne 42).kind = .mersenne ∧ (Rng.create .mersenne 42).st.mt.size = 624 := by decide +kernel
 
 end EaselModel.Props.C18
